@@ -61,6 +61,21 @@ def _extra():
         add("index-forms-short", "short t[4]; unsigned char b; short s;", pre + "s = t[%s];" % idx, {"init": {"b": 2}, "init_addr": {"t+2": 0x78, "t+6": 0x56}, "expect16": {"s": 0x5678}}, "s = t[%s]" % idx)
         for stmt, v in (("c[%s]++;", 0x00), ("c[%s]--;", 0xfe), ("c[%s] += 3;", 0x02), ("c[%s] = 7;", 7), ("c[%s] <<= 1;", 0xfe)):
             add("index-forms-char", "unsigned char c[4]; unsigned char b;", pre + stmt % idx, {"init": {"b": 2}, "init_addr": {"c+2": 0xff}, "expect": {"c+2": v, "c+1": 0, "c+3": 0}}, "%s with index %s" % (stmt % idx, idx))
+    # 16-bit shifts: the forms the generator implements (shift-assign of a short variable or of an X-indexed element of an array of shorts, by a constant below 8) ...
+    for k in (1, 3, 7):
+        v = 0x1281
+        add("shift16-supported", "short s;", "s <<= %d;" % k, {"init16": {"s": v}, "expect16": {"s": (v << k) & 0xffff}}, "s <<= %d" % k)
+        add("shift16-supported", "short s;", "s >>= %d;" % k, {"init16": {"s": v}, "expect16": {"s": v >> k}}, "s >>= %d" % k)
+        add("shift16-supported", "short t[2];", "X = 1; t[X] <<= %d;" % k, {"init_addr": {"t+1": 0x81, "t+3": 0x12}, "expect": {"t+1": (v << k) & 255, "t+3": ((v << k) >> 8) & 255}}, "t[X] <<= %d" % k)
+    add("shift16-supported", "short s; unsigned char c;", "c = s << 1;", {"init16": {"s": 0x1281}, "expect": {"c": 0x02}}, "low byte of a shifted short")
+    add("shift16-supported", "short s; unsigned char c;", "c = s >> 8;", {"init16": {"s": 0x1281}, "expect": {"c": 0x12}}, "high byte through >> 8")
+    # ... and the forms it accepts without implementing them: the high byte is shifted on its own or not at all (known finding)
+    add("shift16-other-forms", "short s;", "s = s << 1;", {"init16": {"s": 0x1281}, "expect16": {"s": 0x2502}}, "s = s << 1")
+    add("shift16-other-forms", "short s;", "s <<= 9;", {"init16": {"s": 0x1281}, "expect16": {"s": 0x0200}}, "s <<= 9")
+    add("shift16-other-forms", "short t[2];", "t[1] <<= 1;", {"init_addr": {"t+1": 0x81, "t+3": 0x12}, "expect": {"t+1": 0x02, "t+3": 0x25}}, "t[1] <<= 1")
+    add("shift16-other-forms", "short t[2];", "Y = 1; t[Y] <<= 1;", {"init_addr": {"t+1": 0x81, "t+3": 0x12}, "expect": {"t+1": 0x02, "t+3": 0x25}}, "t[Y] <<= 1")
+    add("shift16-other-forms", "short t[2];", "t[1] >>= 1;", {"init_addr": {"t+1": 0x81, "t+3": 0x12}, "expect": {"t+1": 0x40, "t+3": 0x09}}, "t[1] >>= 1")
+    add("shift16-other-forms", "char *p;", "p <<= 1;", {"init16": {"p": 0x1281}, "expect16": {"p": 0x2502}}, "p <<= 1")
     # loops: for / while / do-while agree
     for n in (0, 1, 5, 200):
         tot = sum(range(n)) & 255
@@ -179,7 +194,7 @@ def _group_of(src):
 
 def corpus(tier):
     """[(group name, properties, [programs])]: every program at -O0 (C01, C15) and at -O1 (C02)."""
-    from . import u_condex, u_cond16, u_arithm, u_assign, u_shift, u_condval, u_gencond, u_if, u_loops, u_condtail, u_switch, u_callonce, u_sign, u_subscript, u_callframe, u_assignarm
+    from . import u_condex, u_cond16, u_arithm, u_assign, u_shift, u_condval, u_gencond, u_if, u_loops, u_condtail, u_switch, u_callonce, u_sign, u_subscript, u_callframe, u_assignarm, u_compoundarm
     groups = {}
     for mod in (u_condex, u_cond16, u_arithm, u_shift):
         for c in mod.candidates(None):
@@ -188,7 +203,7 @@ def corpus(tier):
         groups.setdefault("logical-conditions", []).append(c)
     for c in u_condval.candidates(None):
         groups.setdefault("cond-value", []).append(c)
-    for mod, gname in ((u_if, "if-forms"), (u_loops, "loop-contract-candidates"), (u_condtail, "cond-tail"), (u_switch, "switch-forms"), (u_callonce, "call-in-16bit-context"), (u_sign, "declared-signedness"), (u_subscript, "element-access"), (u_callframe, "call-frame"), (u_assignarm, "assign-16bit-element")):
+    for mod, gname in ((u_if, "if-forms"), (u_loops, "loop-contract-candidates"), (u_condtail, "cond-tail"), (u_switch, "switch-forms"), (u_callonce, "call-in-16bit-context"), (u_sign, "declared-signedness"), (u_subscript, "element-access"), (u_callframe, "call-frame"), (u_assignarm, "assign-16bit-element"), (u_compoundarm, "compound-16bit-destination")):
         for c in mod.candidates(None):
             if c.get("simulate") and not c.get("contract_only"):
                 groups.setdefault(gname, []).append(c)
